@@ -219,6 +219,16 @@ for _n in range(0, 4):
 LCTX = "libpass/context.py"
 
 
+def _schemes_kept(it, env):
+    now = it.resolve(it.resolve(env.lookup("self")).fields.get("_schemes"))
+    items = getattr(now, "items", None)
+    was = it.run.ghost.get("schemes0")
+    return z3.BoolVal(items is not None and was is not None and len(items) == len(was) and all(a is b for a, b in zip(items, was)))
+
+
+_SCHEMES_KEPT = ("a query does not change the context: the scheme list holds the same hashers in the same order afterwards (verify() with any listed scheme keeps working)", _schemes_kept)
+
+
 def _lib_setup(n, alias=False):
     def setup(it, args):
         hs = []
@@ -237,6 +247,7 @@ def _lib_setup(n, alias=False):
             }))
         self = args["self"]
         self.fields["_schemes"] = SList(hs)
+        it.run.ghost["schemes0"] = list(hs)
         self.fields["_deprecated"] = "auto"
         out = {f"identify_{i}": SBool(z3.Bool(f"identify_{i}")) for i in range(n)}
         out.update({f"verify_{i}": SBool(z3.Bool(f"verify_{i}")) for i in range(n)})
@@ -251,7 +262,7 @@ for _n in (1, 2, 3):
         f"libpass.CryptContext.needs_update[{_n} schemes]", f"{LCTX}::CryptContext.needs_update",
         params={"self": Obj(cls=(LCTX, "CryptContext")), "hash": Str()},
         setup=_lib_setup(_n),
-        ensures=[("update asked exactly for hashes not in the first scheme's format", "result == (not identify_0)")],
+        ensures=[("update asked exactly for hashes not in the first scheme's format", "result == (not identify_0)"), _SCHEMES_KEPT],
         descr="distinct hasher objects, identify() free",
     ))
     CONTRACTS.append(Contract(
